@@ -229,7 +229,9 @@ def run(ctx, chk):
            key={"construct": "MANIFEST.in include"}, file="MANIFEST.in", function="-", line=None)
     # the loader is invoked at import with CACHE_PATH
     calls = [n for n in iter_own_nodes(m.toplevel.node) if isinstance(n, ast.Call) and ast.unparse(n.func) == "_load_offsets"]
-    ok = any(n.args and ast.unparse(n.args[0]) == "CACHE_PATH" for n in calls)
+    p0 = f.params()[0]
+    ok = any((n.args and ast.unparse(n.args[0]) == "CACHE_PATH") or any(k.arg == p0 and ast.unparse(k.value) == "CACHE_PATH" for k in n.keywords)
+             for n in calls)
     chk.ob(rule, "_load_offsets(CACHE_PATH, ...) runs at import", ok, "",
            key={"construct": "import-time call"}, file=m.rel, function="<module>", line=None)
 
